@@ -106,6 +106,7 @@ func (a *Application) providerProxyHandler(w http.ResponseWriter, r *http.Reques
 	r.URL.Path = pr.targetPath
 
 	a.logRequestStart(pr, len(endpoints))
+	w = &startedResponseWriter{ResponseWriter: w}
 	err = a.executeProxyRequest(ctx, w, r, endpoints, pr)
 	a.logRequestResult(pr, err)
 
